@@ -444,10 +444,11 @@ impl Expr {
 				let mut inner = inner.into_inner();
 				let func_name = inner.next().unwrap().as_str().to_string();
 				let mut args = vec![];
-				for arg in inner {
+				// The arguments sit inside the func_call_args node
+				for arg in inner.next().unwrap().into_inner() {
 					args.push(Self::from_rule(arg));
 				}
-				Self::FuncCall(func_name,args) // TODO: handle function calls properly
+				Self::FuncCall(func_name,args)
 			}
 			Rule::ternary => {
 				let mut inner = inner.into_inner();
